@@ -40,6 +40,160 @@ def _b(v):
     return "true" if v else "false"
 
 
+# ------------------------------------------------------------------ dataflow helpers
+# Facts are keyed on public names only (classes, methods, parameters by POSITION, keyword arguments,
+# attributes of self / of library objects).  Locals are identified by dataflow: a local bound exactly once
+# to an expression is replaced by that expression (aliases, temporaries, renamed variables), tuple
+# unpacking becomes indexing, comparisons/negations are normalised.
+
+_VAR = object()      # bound more than once / by a loop, with, except, augmented assignment, parameter
+
+
+class Env:
+    """single-assignment bindings of ONE function scope (nested scopes are separate), chained to the
+    enclosing scope for closures"""
+
+    def __init__(self, fn, parent=None):
+        self.fn, self.parent = fn, parent
+        binds = {}
+
+        def bind(name, val):
+            binds.setdefault(name, []).append(val)
+
+        def target(t, val):
+            if isinstance(t, ast.Name):
+                bind(t.id, val)
+            elif isinstance(t, (ast.Tuple, ast.List)):
+                for i, e in enumerate(t.elts):
+                    if val is _VAR or isinstance(e, ast.Starred):
+                        target(e.value if isinstance(e, ast.Starred) else e, _VAR)
+                    else:
+                        target(e, ast.Subscript(value=val, slice=ast.Constant(value=i), ctx=ast.Load()))
+
+        for a in fn.args.posonlyargs + fn.args.args + fn.args.kwonlyargs:
+            bind(a.arg, _VAR)
+        for a in (fn.args.vararg, fn.args.kwarg):
+            if a is not None:
+                bind(a.arg, _VAR)
+
+        def visit(node):
+            for ch in ast.iter_child_nodes(node):
+                if isinstance(ch, (ast.FunctionDef, ast.AsyncFunctionDef, ast.ClassDef)):
+                    bind(ch.name, _VAR)
+                    continue                       # separate scope
+                if isinstance(ch, (ast.Lambda, ast.ListComp, ast.SetComp, ast.DictComp, ast.GeneratorExp)):
+                    continue
+                if isinstance(ch, ast.Assign):
+                    for t in ch.targets:
+                        target(t, ch.value)
+                elif isinstance(ch, ast.AnnAssign) and ch.value is not None:
+                    target(ch.target, ch.value)
+                elif isinstance(ch, ast.AugAssign):
+                    target(ch.target, _VAR)
+                elif isinstance(ch, (ast.For, ast.AsyncFor)):
+                    target(ch.target, _VAR)
+                elif isinstance(ch, (ast.With, ast.AsyncWith)):
+                    for it in ch.items:
+                        if it.optional_vars is not None:
+                            target(it.optional_vars, _VAR)
+                elif isinstance(ch, ast.ExceptHandler) and ch.name:
+                    bind(ch.name, _VAR)
+                elif isinstance(ch, ast.NamedExpr):
+                    target(ch.target, _VAR)
+                elif isinstance(ch, (ast.Import, ast.ImportFrom)):
+                    for al in ch.names:
+                        bind((al.asname or al.name).split(".")[0], _VAR)
+                visit(ch)
+        visit(fn)
+        self.binds = binds
+
+    def lookup(self, name):
+        """-> ('expr', node) | ('var', defining Env) | ('free', None)"""
+        env = self
+        while env is not None:
+            if name in env.binds:
+                b = env.binds[name]
+                if len(b) == 1 and b[0] is not _VAR:
+                    return "expr", b[0], env
+                return "var", None, env
+            env = env.parent
+        return "free", None, None
+
+    def resolve(self, node, depth=10):
+        env = self
+
+        class R(ast.NodeTransformer):
+            def visit_Name(self, n):
+                if isinstance(n.ctx, ast.Load) and depth > 0:
+                    kind, val, where = env.lookup(n.id)
+                    if kind == "expr":
+                        return where.resolve(val, depth - 1)
+                return n
+        import copy
+        return R().visit(copy.deepcopy(node))
+
+    def for_targets(self):
+        out = set()
+        for node in ast.walk(self.fn):
+            if isinstance(node, (ast.For, ast.AsyncFor)):
+                for n in ast.walk(node.target):
+                    if isinstance(n, ast.Name):
+                        out.add(n.id)
+        return out
+
+
+_NEG = {ast.Lt: ast.GtE, ast.GtE: ast.Lt, ast.Gt: ast.LtE, ast.LtE: ast.Gt, ast.Eq: ast.NotEq, ast.NotEq: ast.Eq}
+_SWAP = {ast.Gt: ast.Lt, ast.GtE: ast.LtE}
+
+
+def norm_test(node):
+    """`not (a >= b)` -> `a < b`;  `b > a` -> `a < b`;  `not not x` -> x"""
+    if isinstance(node, ast.UnaryOp) and isinstance(node.op, ast.Not):
+        inner = norm_test(node.operand)
+        if isinstance(inner, ast.UnaryOp) and isinstance(inner.op, ast.Not):
+            return norm_test(inner.operand)
+        if isinstance(inner, ast.Compare) and len(inner.ops) == 1 and type(inner.ops[0]) in _NEG:
+            return norm_test(ast.Compare(left=inner.left, ops=[_NEG[type(inner.ops[0])]()], comparators=inner.comparators))
+        return ast.UnaryOp(op=ast.Not(), operand=inner)
+    if isinstance(node, ast.Compare) and len(node.ops) == 1 and type(node.ops[0]) in _SWAP:
+        return ast.Compare(left=node.comparators[0], ops=[_SWAP[type(node.ops[0])]()], comparators=[node.left])
+    return node
+
+
+def conjuncts(node):
+    if isinstance(node, ast.BoolOp) and isinstance(node.op, ast.And):
+        return [c for v in node.values for c in conjuncts(v)]
+    return [node]
+
+
+def _u(node):
+    return ast.unparse(ast.fix_missing_locations(node))
+
+
+def _scopes(fn, parent=None):
+    """Env of fn and of every nested function, keyed by the function node"""
+    env = Env(fn, parent)
+    out = {fn: env}
+    def walk(node):
+        for ch in ast.iter_child_nodes(node):
+            if isinstance(ch, (ast.FunctionDef, ast.AsyncFunctionDef)):
+                out.update(_scopes(ch, env))
+            elif not isinstance(ch, ast.ClassDef):
+                walk(ch)
+    walk(fn)
+    return out
+
+
+def _owner(scopes, node):
+    """innermost function of `scopes` that contains node"""
+    best = None
+    for fn in scopes:
+        if any(n is node for n in ast.walk(fn)):
+            if best is None or any(n is fn for n in ast.walk(best)):
+                best = fn
+    return best
+
+
 def lexer_kwargs(repo):
     """-> dict of the constant keyword arguments at the get_lexer_by_name call in Syntax.highlight
     (also used by the correspondence harness to build the very same lexer)."""
@@ -49,13 +203,15 @@ def lexer_kwargs(repo):
     if len(calls) != 1:
         raise Untranslatable(f"Syntax.highlight: {len(calls)} get_lexer_by_name calls, expected 1")
     call = calls[0]
-    if len(call.args) != 1 or ast.unparse(call.args[0]) != "self.lexer_name":
+    scopes = _scopes(hl)
+    env = scopes[_owner(scopes, call)]
+    if len(call.args) != 1 or _u(env.resolve(call.args[0])) != "self.lexer_name":
         raise Untranslatable("get_lexer_by_name: positional arguments are not (self.lexer_name)")
     kw = {}
     for k in call.keywords:
         if k.arg not in ("stripnl", "ensurenl"):
             raise Untranslatable(f"get_lexer_by_name: keyword {k.arg!r} is outside the modelled options")
-        v = literal(k.value, f"get_lexer_by_name {k.arg}")
+        v = literal(env.resolve(k.value), f"get_lexer_by_name {k.arg}")
         if not isinstance(v, bool):
             raise Untranslatable(f"get_lexer_by_name: {k.arg} is not a bool literal")
         kw[k.arg] = v
@@ -63,21 +219,37 @@ def lexer_kwargs(repo):
 
 
 def _skip_guard(repo):
+    """the skip loop of the ranged path: the `while` (anywhere under Syntax.highlight) that pulls tokens
+    with next(...).  Its test must be, after resolving single-assignment locals and normalising the
+    comparison,  <counter> < <line_range parameter>[0] - 1  with a counter initialised to 0."""
     tree, _ = parse(repo, "rich/syntax.py")
     hl = find_func(find_class(tree, "Syntax").body, "highlight")
-    t2s = None
-    for node in ast.walk(hl):
-        if isinstance(node, ast.FunctionDef) and node.name == "tokens_to_spans":
-            t2s = node
-    if t2s is None:
-        raise Untranslatable("Syntax.highlight: no tokens_to_spans")
-    whiles = [n for n in ast.walk(t2s) if isinstance(n, ast.While)]
-    if len(whiles) != 1 or ast.unparse(whiles[0].test) != "line_no < _line_start":
-        raise Untranslatable("tokens_to_spans: skip loop not of the form `while line_no < _line_start`")
-    loop = whiles[0]
-    nexts = _calls(loop, "next")
+    if len(hl.args.args) < 3:
+        raise Untranslatable("Syntax.highlight: no (self, code, line_range) signature")
+    range_param = hl.args.args[2].arg
+    scopes = _scopes(hl)
+    loops = []
+    for n in ast.walk(hl):
+        if isinstance(n, ast.While):
+            nx = [c for c in _calls(n, "next") if isinstance(c.func, ast.Name)]
+            if nx:
+                loops.append((n, nx))
+    if len(loops) != 1:
+        raise Untranslatable(f"Syntax.highlight: {len(loops)} while-loops calling next(), expected 1 (the skip loop)")
+    loop, nexts = loops[0]
+    env = scopes[_owner(scopes, loop)]
+    test = norm_test(env.resolve(loop.test))
+    ok = (isinstance(test, ast.Compare) and len(test.ops) == 1 and isinstance(test.ops[0], ast.Lt)
+          and isinstance(test.left, ast.Name) and _u(test.comparators[0]) == f"{range_param}[0] - 1")
+    if ok:
+        kind, _v, where = env.lookup(test.left.id)
+        inits = [b for b in (where.binds.get(test.left.id, []) if where else []) if b is not _VAR]
+        ok = kind == "var" and len(inits) == 1 and isinstance(inits[0], ast.Constant) and inits[0].value == 0
+    if not ok:
+        raise Untranslatable(f"Syntax.highlight: skip loop test is not `<counter from 0> < {range_param}[0] - 1` "
+                             f"(resolved: {_u(test)!r})")
     if len(nexts) != 1 or len(nexts[0].args) != 1 or nexts[0].keywords:
-        raise Untranslatable("tokens_to_spans: skip loop does not contain exactly one next(tokens)")
+        raise Untranslatable("Syntax.highlight: skip loop does not contain exactly one next(tokens)")
     # guarded iff that call sits in the body of a `try` with an `except StopIteration: break`
     for node in ast.walk(loop):
         if isinstance(node, ast.Try):
@@ -90,23 +262,41 @@ def _skip_guard(repo):
                     if "StopIteration" in names:
                         if len(h.body) == 1 and isinstance(h.body[0], ast.Break):
                             return True
-                        raise Untranslatable("tokens_to_spans: StopIteration handler is not a plain `break`")
-                raise Untranslatable("tokens_to_spans: next(tokens) inside a try that does not catch StopIteration")
+                        raise Untranslatable("Syntax.highlight: StopIteration handler of the skip loop is not a plain `break`")
+                raise Untranslatable("Syntax.highlight: next(tokens) inside a try that does not catch StopIteration")
     return False
 
 
 def _guides_guard(repo):
-    """does __rich_console__ skip the indent-guide pass when no line is selected?"""
+    """does __rich_console__ skip the indent-guide pass when no line is selected?  The pass is the `if`
+    whose body calls .with_indent_guides(); its condition must be self.indent_guides and not
+    <options>.ascii_only, optionally and-ed with the truth of the very line list that the body joins."""
     tree, _ = parse(repo, "rich/syntax.py")
     rc = find_func(find_class(tree, "Syntax").body, "__rich_console__")
-    tests = [ast.unparse(n.test) for n in ast.walk(rc) if isinstance(n, ast.If) and "indent_guides" in ast.unparse(n.test)]
-    if len(tests) != 1:
-        raise Untranslatable(f"Syntax.__rich_console__: {len(tests)} `if` tests on indent_guides, expected 1")
-    if tests[0] == "self.indent_guides and (not options.ascii_only)":
+    if len(rc.args.args) < 3:
+        raise Untranslatable("Syntax.__rich_console__: no (self, console, options) signature")
+    opts = rc.args.args[2].arg
+    ifs = [n for n in ast.walk(rc) if isinstance(n, ast.If)
+           and any(_calls(b, "with_indent_guides") for b in n.body)]
+    if len(ifs) != 1:
+        raise Untranslatable(f"Syntax.__rich_console__: {len(ifs)} `if` blocks calling with_indent_guides, expected 1")
+    node = ifs[0]
+    env = _scopes(rc)[rc]
+    cs = [_u(norm_test(c)) for c in conjuncts(env.resolve(node.test))]
+    need = ["self.indent_guides", f"not {opts}.ascii_only"]
+    for n in need:
+        if cs.count(n) != 1:
+            raise Untranslatable(f"Syntax.__rich_console__: indent-guide condition lacks `{n}`: {cs!r}")
+    rest = [c for c in cs if c not in need]
+    if not rest:
         return False
-    if tests[0] == "self.indent_guides and (not options.ascii_only) and lines":
-        return True
-    raise Untranslatable(f"Syntax.__rich_console__: unmodelled indent-guide condition {tests[0]!r}")
+    joins = [c for b in node.body for c in _calls(b, "join") if len(c.args) == 1]
+    joined = {_u(env.resolve(c.args[0])) for c in joins}
+    if len(rest) == 1 and len(joined) == 1:
+        x = next(iter(joined))
+        if rest[0] in (x, f"len({x}) > 0", f"0 < len({x})", f"len({x}) != 0", f"len({x})", f"{x} != []"):
+            return True
+    raise Untranslatable(f"Syntax.__rich_console__: unmodelled indent-guide condition {cs!r}")
 
 
 def _init_defaults(repo):
@@ -132,9 +322,24 @@ def _traceback_call(repo):
     if len(calls) != 1:
         raise Untranslatable(f"Traceback._render_stack: {len(calls)} Syntax(...) calls, expected 1")
     call = calls[0]
-    if [ast.unparse(a) for a in call.args] != ["code", "lexer_name"]:
-        raise Untranslatable("Traceback Syntax call: positional arguments are not (code, lexer_name)")
-    kw = {k.arg: ast.unparse(k.value) for k in call.keywords}
+    scopes = _scopes(rs)
+    env = scopes[_owner(scopes, call)]
+    # the frame variable: the loop variable X such that the code is obtained from X.filename
+    if len(call.args) != 2:
+        raise Untranslatable("Traceback Syntax call: not two positional arguments (code, lexer name)")
+    a0, a1 = env.resolve(call.args[0]), env.resolve(call.args[1])
+    fv = None
+    if isinstance(a0, ast.Call) and len(a0.args) == 1 and not a0.keywords:
+        x = a0.args[0]
+        if isinstance(x, ast.Attribute) and x.attr == "filename" and isinstance(x.value, ast.Name):
+            fv = x.value.id
+    if fv is None or fv not in env.for_targets():
+        raise Untranslatable("Traceback Syntax call: the code is not <read>(<frame loop variable>.filename)")
+    ok1 = (isinstance(a1, ast.Call) and len(a1.args) == 2 and _u(a1.args[0]) == f"{fv}.filename"
+           and _u(a1.args[1]) == _u(a0))
+    if not ok1:
+        raise Untranslatable("Traceback Syntax call: the lexer name is not <guess>(<frame>.filename, <code>)")
+    kw = {k.arg: _u(env.resolve(k.value)) for k in call.keywords}
     known = {"theme", "line_numbers", "line_range", "highlight_lines", "word_wrap", "code_width",
              "indent_guides", "dedent"}
     extra = set(kw) - known
@@ -146,8 +351,8 @@ def _traceback_call(repo):
         raise Untranslatable("Traceback Syntax call: code_width is not an int literal")
     return {
         "line_numbers": kw.get("line_numbers") == "True",
-        "range_pm_extra": kw.get("line_range") == "(frame.lineno - self.extra_lines, frame.lineno + self.extra_lines)",
-        "highlight_lineno": kw.get("highlight_lines") == "{frame.lineno}",
+        "range_pm_extra": kw.get("line_range") == f"({fv}.lineno - self.extra_lines, {fv}.lineno + self.extra_lines)",
+        "highlight_lineno": kw.get("highlight_lines") == "{%s.lineno}" % fv,
         "code_width": cw,
         "dedent_off": kw.get("dedent", "False") == "False",
         "word_wrap_from_self": kw.get("word_wrap") == "self.word_wrap",
